@@ -126,7 +126,7 @@ func (tl *store) Add(didDocument did.Document, transaction Transaction) error {
 		if index > 0 {
 			base = &currentEventList.Events[index-1]
 		}
-		if err = tl.applyFrom(tx, base, applyList); err != nil {
+		if err = tl.applyFrom(tx, didDocument.ID, base, applyList); err != nil {
 			return fmt.Errorf("applying event list failed: %w", err)
 		}
 		return writeEventList(tx, currentEventList, didDocument.ID)
